@@ -512,6 +512,8 @@ def st_try(self, s: ast.Try, st: State) -> Optional[State]:
     elif s.finalbody:
         st.ctx = base_ctx + (("tryfinally", tid),)
     n0 = len(self.trace)
+    if self.sym_bytes and s.handlers:
+        return _precise_try(self, s, st, tid, base_ctx, classes_per_handler)
     r = self.block(s.body, st)
     if r is not None and s.orelse:
         r.ctx = base_ctx + (("tryelse", tid),)
@@ -563,6 +565,69 @@ def st_try(self, s: ast.Try, st: State) -> Optional[State]:
         if res is not None:
             res.ctx = base_ctx
     return res
+
+
+def _precise_try(self, s: ast.Try, st: State, tid, base_ctx, classes_per_handler) -> Optional[State]:
+    """try/except with concrete control: the body either completes (handlers are skipped) or ends with one definite
+    exception, which is matched against the handlers in order; the handler continues from the state at the raise"""
+    from .exc import Hier
+
+    depth = len(st.envs)
+    nframes = len(self.frames)
+    self._dead = None
+    nret = len(self.frame.returns)
+    r = self.block(s.body, st)
+    if r is not None:
+        if s.orelse:
+            r.ctx = base_ctx + (("tryelse", tid),)
+            r = self.block(s.orelse, r)
+    elif len(self.frame.returns) > nret or self._dead is None:
+        r = None  # the body returned / broke out: not an exception
+    else:
+        ds, exc = self._dead
+        self._dead = None
+        hier = Hier(self.prog)
+        exc = str(exc or "Exception")
+        names = exc.split("|")
+        hit = None
+        for i, classes in enumerate(classes_per_handler):
+            flat = [c for cs in classes for c in str(cs).split("|")]
+            if all(any(hier.is_sub(nm, c) or c in ("BaseException",) for c in flat) for nm in names):
+                hit = i
+                break
+            if any(any(hier.is_sub(nm, c) for c in flat) for nm in names):
+                raise Unsupported("try at line %d: exception %s matches a handler only partly" % (s.lineno, exc))
+        if hit is None:
+            self._dead = (ds, exc)  # propagates
+            r = None
+        else:
+            h = s.handlers[hit]
+            hs = ds
+            del hs.envs[depth:]
+            del self.frames[nframes:]
+            hs.ctx = base_ctx + (("except", tid, hit, classes_per_handler[hit]),)
+            if h.name:
+                hs.envs[-1][h.name] = mk("caught", tid, hit)
+            self.frame.handler_stack.append((tid, classes_per_handler[hit]))
+            try:
+                r = self.block(h.body, hs)
+            finally:
+                self.frame.handler_stack.pop()
+    if r is not None:
+        r.ctx = base_ctx
+    if s.finalbody:
+        fs = r
+        if fs is None and self._dead is not None:
+            fs = self._dead[0]
+            del fs.envs[depth:]
+        if fs is not None:
+            fs.ctx = base_ctx + (("finally", tid),)
+            out = self.block(s.finalbody, fs)
+            if r is not None:
+                r = out
+                if r is not None:
+                    r.ctx = base_ctx
+    return r
 
 
 def _assigned_names(stmts) -> List[str]:
@@ -707,7 +772,7 @@ def st_while(self, s: ast.While, st: State) -> Optional[State]:
             raise Unsupported("loop at line %d: condition became symbolic after %d concrete iterations" % (s.lineno, n))
         if not cval(c):
             break
-        if isinstance(s.test, ast.Constant) or n == 0 and _always_true(s.test):
+        if (isinstance(s.test, ast.Constant) or n == 0 and _always_true(s.test)) and not self.sym_bytes:
             # `while True` : symbolic treatment (exit via break)
             del self.trace[probe:]
             return self.symbolic_loop(s, st, "while", None)
